@@ -21,8 +21,8 @@ pub fn check(tier: Tier) -> Check {
     ];
     for k in 0..=tier.pick(1, 2) {
         let d = match (tier, k) {
-            (Tier::Quick, 0) => 5,
-            (Tier::Quick, _) => 4,
+            (Tier::Quick, 0) => 6,
+            (Tier::Quick, _) => 5,
             (Tier::Thorough, 0) => 6,
             (Tier::Thorough, 1) => 5,
             (Tier::Thorough, _) => 4,
